@@ -145,4 +145,137 @@ theorem while_rule_ok : while_rule_stmt := by
       exact ih2 rfl (hV _ _ ⟨hi, hb⟩ h1)
   exact hE _ (key _ _ _ hS rfl hI)
 
+/-! ### the derivation `eval_Sem` builds -/
+
+/-- `d` is a well-formed derivation of `Sem h s t` from the theorems of library/hoare.json: every node
+applies the named theorem to premises of the right form -/
+inductive DerivOK : Deriv → HCom State → State → State → Prop where
+  | skip {s} : DerivOK .skip Gen.Skip s s
+  | assign {x f s} : DerivOK .assign (Gen.Assign x f) s (Gen.upd s x (f s))
+  | seq {d1 d2 c1 c2 s s3 s2} : DerivOK d1 c1 s s3 → DerivOK d2 c2 s3 s2 → DerivOK (.seq d1 d2) (Seq c1 c2) s s2
+  | if1 {d} {b : State → Prop} {c1 c2 s s2} : b s → DerivOK d c1 s s2 → DerivOK (.if1 d) (Cond b c1 c2) s s2
+  | if2 {d} {b : State → Prop} {c1 c2 s s2} : ¬ b s → DerivOK d c2 s s2 → DerivOK (.if2 d) (Cond b c1 c2) s s2
+  | whileSkip {b I : State → Prop} {c s} : ¬ b s → DerivOK .whileSkip (While b I c) s s
+  | whileLoop {d1 d2} {b I : State → Prop} {c s s3 s2} : b s → DerivOK d1 c s s3 → DerivOK d2 (While b I c) s3 s2 →
+      DerivOK (.whileLoop d1 d2) (While b I c) s s2
+
+/-- a well-formed derivation proves its conclusion in the `Sem` of the library -/
+theorem derivOK_sound {d h s t} (hd : DerivOK d h s t) : Sem h s t := by
+  induction hd with
+  | skip => exact sem_skip_ok _
+  | assign => exact sem_assign_ok _ _ _
+  | seq _ _ ih1 ih2 => exact Sem.Sem_seq ih1 ih2
+  | if1 hb _ ih => exact Sem.Sem_if1 hb ih
+  | if2 hb _ ih => exact Sem.Sem_if2 hb ih
+  | whileSkip hb => exact Sem.Sem_while_skip hb
+  | whileLoop hb _ _ ih1 ih2 => exact Sem.Sem_while_loop hb ih1 ih2
+
+theorem evalSem_spec : ∀ n c s d t, evalSem n c s = some (d, t) → DerivOK d (embed c) s t ∧ interp n c s = .ok t := by
+  intro n
+  induction n with
+  | zero => intro c s d t h; simp [evalSem] at h
+  | succ n ih =>
+    intro c s d t h
+    cases c with
+    | skip => simp only [evalSem] at h; cases h; exact ⟨.skip, rfl⟩
+    | assign x e =>
+      simp only [evalSem] at h
+      split at h
+      · rename_i v hv
+        cases h
+        refine ⟨?_, by simp [interp, hv]⟩
+        have : upd s x v = Gen.upd s x (ival e s) := by simp [ival, hv, gen_upd_eq]
+        rw [this]; exact .assign
+      · cases h
+    | seq c1 c2 =>
+      simp only [evalSem] at h
+      split at h
+      · rename_i d1 s1 h1
+        split at h
+        · rename_i d2 s2 h2
+          cases h
+          obtain ⟨a1, b1⟩ := ih _ _ _ _ h1
+          obtain ⟨a2, b2⟩ := ih _ _ _ _ h2
+          exact ⟨.seq a1 a2, by simp [interp, b1, b2]⟩
+        · cases h
+      · cases h
+    | cond b c1 c2 =>
+      simp only [evalSem] at h
+      split at h
+      · rename_i hb
+        split at h
+        · rename_i d' s2 h1
+          cases h
+          obtain ⟨a1, b1⟩ := ih _ _ _ _ h1
+          exact ⟨.if1 hb a1, by simp [interp, hb, b1]⟩
+        · cases h
+      · rename_i hb
+        split at h
+        · rename_i d' s2 h1
+          cases h
+          obtain ⟨a1, b1⟩ := ih _ _ _ _ h1
+          exact ⟨.if2 (by simp [bval, hb]) a1, by simp [interp, hb, b1]⟩
+        · cases h
+      · cases h
+    | «while» b inv c =>
+      simp only [evalSem] at h
+      split at h
+      · rename_i hb
+        split at h
+        · rename_i d1 s1 h1
+          split at h
+          · rename_i d2 s2 h2
+            cases h
+            obtain ⟨a1, b1⟩ := ih _ _ _ _ h1
+            obtain ⟨a2, b2⟩ := ih _ _ _ _ h2
+            exact ⟨.whileLoop hb a1 a2, by simp [interp, hb, b1, b2]⟩
+          · cases h
+        · cases h
+      · rename_i hb; cases h; exact ⟨.whileSkip (by simp [bval, hb]), by simp [interp, hb]⟩
+      · cases h
+
+theorem evalSem_of_interp : ∀ n c s t, interp n c s = .ok t → ∃ d, evalSem n c s = some (d, t) := by
+  intro n
+  induction n with
+  | zero => intro c s t h; simp [interp] at h
+  | succ n ih =>
+    intro c s t h
+    cases c with
+    | skip => simp only [interp] at h; cases h; exact ⟨_, rfl⟩
+    | assign x e =>
+      simp only [interp] at h
+      split at h
+      · rename_i v hv; cases h; exact ⟨.assign, by simp [evalSem, hv]⟩
+      · cases h
+    | seq c1 c2 =>
+      rw [interp_seq] at h
+      cases h1 : interp n c1 s with
+      | ok s1 =>
+        rw [h1] at h
+        obtain ⟨d1, e1⟩ := ih _ _ _ h1
+        obtain ⟨d2, e2⟩ := ih _ _ _ h
+        exact ⟨.seq d1 d2, by simp [evalSem, e1, e2]⟩
+      | stuck => rw [h1] at h; cases h
+      | fuel => rw [h1] at h; cases h
+    | cond b c1 c2 =>
+      rw [interp_cond] at h
+      split at h
+      · rename_i hb; obtain ⟨d, e⟩ := ih _ _ _ h; exact ⟨.if1 d, by simp [evalSem, hb, e]⟩
+      · rename_i hb; obtain ⟨d, e⟩ := ih _ _ _ h; exact ⟨.if2 d, by simp [evalSem, hb, e]⟩
+      · cases h
+    | «while» b inv c =>
+      rw [interp_while] at h
+      split at h
+      · rename_i hb
+        cases h1 : interp n c s with
+        | ok s1 =>
+          rw [h1] at h
+          obtain ⟨d1, e1⟩ := ih _ _ _ h1
+          obtain ⟨d2, e2⟩ := ih _ _ _ h
+          exact ⟨.whileLoop d1 d2, by simp [evalSem, hb, e1, e2]⟩
+        | stuck => rw [h1] at h; cases h
+        | fuel => rw [h1] at h; cases h
+      · rename_i hb; cases h; exact ⟨.whileSkip, by simp [evalSem, hb]⟩
+      · cases h
+
 end Holpy.C20
